@@ -26,6 +26,7 @@ from . import Ctx
 from .common import callee_name
 from .common import calls
 from .common import kw
+from .common import path_conditions
 
 FAMILIES = ("JSONPathError", "JSONPointerError", "RelativeJSONPointerError", "JSONPatchError", "json.JSONDecodeError")
 
@@ -164,13 +165,32 @@ def r18_2(ctx: Ctx) -> RuleResult:
             tgt = c.args[1] if len(c.args) > 1 else kw(c, "fp")
             ind = kw(c, "indent")
             ok_t = tgt is not None and path_of(tgt) == f"{handler.node.args.args[0].arg}.output"
-            ok_i = False
+            # every definition of the indent value: non-None exactly under `args.pretty`
+            argsn = handler.node.args.args[0].arg
+            defs: List[Tuple[ast.expr, List[Tuple[ast.expr, bool]]]] = []
             if isinstance(ind, ast.Name):
                 for a in ast.walk(handler.node):
-                    if isinstance(a, ast.Assign) and path_of(a.targets[0]) == ind.id and isinstance(a.value, ast.IfExp):
-                        if path_of(a.value.test) == f"{handler.node.args.args[0].arg}.pretty" and isinstance(
-                            a.value.orelse, ast.Constant) and a.value.orelse.value is None:
-                            ok_i = True
+                    if isinstance(a, ast.Assign) and path_of(a.targets[0]) == ind.id:
+                        defs.append((a.value, path_conditions(handler.node, a)))
+            elif ind is not None:
+                defs.append((ind, []))
+            flat: List[Tuple[ast.expr, List[Tuple[ast.expr, bool]]]] = []
+            for v, conds in defs:
+                if isinstance(v, ast.IfExp):
+                    flat.append((v.body, conds + [(v.test, True)]))
+                    flat.append((v.orelse, conds + [(v.test, False)]))
+                else:
+                    flat.append((v, conds))
+            polar: Set[bool] = set()
+            ok_i = bool(flat)
+            for v, conds in flat:
+                pol = [b for t, b in conds if path_of(t) == f"{argsn}.pretty"]
+                is_none = isinstance(v, ast.Constant) and v.value is None
+                if len(set(pol)) != 1 or is_none == pol[0]:
+                    ok_i = False
+                else:
+                    polar.add(pol[0])
+            ok_i = ok_i and polar == {True, False}
             if ok_t and ok_i:
                 rr.ok(handler.loc(c), f"{handler.name}: json.dump(..., args.output, indent=INDENT if args.pretty else None)")
             else:
